@@ -170,7 +170,7 @@ def gen_scenario(rng, sid, clock_free=True):
     feat["dupl"] = rng.choice([0.0, 0.0, 0.0, 0.4])
     feat["drop"] = rng.choice([0.0, 0.0, 0.3])
     feat["corrupt"] = rng.choice([0.0, 0.0, 0.5])
-    (cls, _, lines), feat, seed = gen_sim.gen_scenario(rng, sid, feat=feat, nops=rng.randint(2, 9))
+    (cls, _, lines), feat, seed = gen_sim.gen_scenario(rng, sid, feat=feat, nops=rng.randint(2, 9), partial_readd=False)
     # keep the prefix free of reads (so that outboxes accumulate on both sides) and of the final drain
     prefix = [l for l in lines if not l.startswith("OP READ") and not l.startswith("OP UNTIL")]
     skews = [0.0]
